@@ -1106,13 +1106,18 @@ def expr_fn(
         return parse_binary_or(tok)
 
     tok = get_token()
-    ret = parse_expr(tok)
-    if isinstance(ret, str):
-        return ret
-    if isinstance(ret, float):
-        if ret == math.floor(ret):
-            return str(int(ret))
-    return str(ret)
+    try:
+        ret = parse_expr(tok)
+        if isinstance(ret, str):
+            return ret
+        if isinstance(ret, float):
+            if ret == math.floor(ret):
+                return str(int(ret))
+        return str(ret)
+    except (ArithmeticError, ValueError, TypeError):
+        # Domain, overflow and type errors of the math functions
+        # (ln 0, acos 2, 10^1000, exp 1000, x round 1.5, nan/inf results)
+        return '<strong class="error">Expression error: invalid value</strong>'
 
 
 def padleft_fn(
